@@ -744,7 +744,28 @@ def sp_unravel_lemma(interp, st, args, kwargs, node):
     return z3.And(*M.unravel_axioms(R, C))
 
 
+def sp_first_index(interp, st, args, kwargs, node):
+    """first_index(xs, x): the least k with xs[k] == x, or len(xs) when x does not occur (a total function; lists of strings / ints)"""
+    from .npmodel4 import _as_scalar_symlist, _scalar_z3
+
+    arr, n = _as_scalar_symlist(args[0], node)
+    if arr is None:
+        return 0
+    x = _scalar_z3(args[1], node)
+    nz = to_z3(as_int(n))
+    i, j = z3.Int(V.fresh_name("first")), z3.Int(V.fresh_name("fj"))
+    st.assume(z3.And(i >= 0, i <= nz, z3.ForAll([j], z3.Implies(z3.And(j >= 0, j < i), z3.Select(arr, j) != x)), z3.Or(i == nz, z3.Select(arr, i) == x)))
+    return i
+
+
+def sp_occurrences(interp, st, args, kwargs, node):
+    """occurrences(xs, x): how often x occurs in xs (known: 0 <= c <= len; c == 0 iff absent; c == 1 iff exactly one position)"""
+    return M.m_list_count(interp, st, args[0], None, [args[1]], {}, node)
+
+
 SPEC_FUNCTIONS = {
+    "first_index": sp_first_index,
+    "occurrences": sp_occurrences,
     "unravel_row": _unravel(0),
     "unravel_col": _unravel(1),
     "ravel_index": _unravel(2),
